@@ -27,6 +27,9 @@ g_router._spawn_subprocess = lambda job_spec, addr, job_id: None
 repo_env.STUBS_IN_FORCE.append("gateway.server.deserialize -> identity (pickle is trusted C code); _spawn_subprocess -> no-op")
 
 
+BIG = [bytes([k]) * 900_000 + b"\x00\xff" for k in (7, 8, 9, 10, 11)]
+
+
 class FakePoller:
     def __init__(self):
         self.registered, self.unregistered = [], []
@@ -79,6 +82,9 @@ class Gateway(Harness):
         for kinds in itertools.product(range(3), repeat=R):
             out.append({"kinds": list(kinds), "jobs": J})
         out.append({"kinds": [0, 1], "jobs": J, "ids": True})
+        # results are whole datasets: shards in which output "1" is large (its base64 text is longer than a mebi-character)
+        out.append({"kinds": [1], "jobs": 1, "big": True})
+        out.append({"kinds": [1, 1], "jobs": 2, "big": True})
         if tier == "thorough":
             for kinds in itertools.product(range(2), repeat=5):
                 out.append({"kinds": list(kinds), "jobs": 2})
@@ -128,7 +134,7 @@ class Gateway(Harness):
                 seen[j].append((ts, f"{i + 1}0.00"))
             elif kind == 1:
                 ds = DatasetId("t", ["0", "1"][ch.pick(2, f"ds{i}")])
-                val = bytes([i, 255, 0, 10])
+                val = BIG[i % len(BIG)] if (params.get("big") and ds.output == "1") else bytes([i, 255, 0, 10])
                 rep = ControllerReport(j, None, ts, [(ds, val)])
                 uploaded[(j, ds)] = val
             else:
